@@ -14,13 +14,14 @@ def num_harness(d, hname, sabotage=False):
     if d.has_validation():
         valid = d.valid_expr("s")
         if sabotage:
-            valid = valid.replace("<=", "<", 1) if "<=" in valid else valid.replace(">=", ">", 1)
+            valid = "!(%s)" % valid
         body.append("let valid: bool = %s;" % valid)
         body.append("let r = %s::try_new(raw);" % d.name)
         if not sabotage:
             if getattr(d, "can_ok", True):
                 body.append("kani::cover!(r.is_ok());")
-            body.append("kani::cover!(r.is_err());")
+            if getattr(d, "can_err", True):
+                body.append("kani::cover!(r.is_err());")
         body.append("match r {\n            Ok(v) => { assert!(valid, \"accepted a value violating a validator\"); let got = v.into_inner(); assert!(%s, \"stored value differs from sanitized value\"); }\n            Err(_) => { assert!(!valid, \"rejected a value satisfying every validator\"); }\n        }" % d.eq("got", "s"))
     else:
         body.append("let got = %s::new(raw).into_inner();" % d.name)
@@ -79,6 +80,7 @@ def numeric_catalogue(tier, rng):
                     continue   # refused by the macro at compile time (exclusive bounds that exclude each other: C08's subject)
                 d = NumDecl(ty, [lk, uk], san="fn", bounds={"lo": str(a), "hi": str(b)}, modname="%s_lit%d_%s_%s" % (ty, n, lk, uk))
                 d.can_ok = (a + (1 if lk == "gt" else 0)) <= (b - (1 if uk == "lt" else 0))
+                d.can_err = not ((lk, uk) == ("ge", "le") and a == int_min(ty) and b == int_max(ty))   # the whole type is valid
                 decls.append(d)
     flits = [("-0.0", "0.0"), ("0.0", "-0.0"), ("f32::NEG_INFINITY", "f32::INFINITY"), ("-1.5e-3", "1e3"), ("1.0e-45", "3.4028235e38"),
              ("-1", "1"), ("1.17549435e-38", "1.0"), ("-3.4028235e38", "-1.17549435e-38")]
@@ -208,9 +210,9 @@ def generate(tier, seed):
         hname = "c01_" + m
         hs = num_harness(d, hname)
         plan.add(H(hname, "main", d.describe()))
-        if first:
+        if first and d.has_validation() and getattr(d, "can_ok", True):
             hs += num_harness(d, hname + "_must_fail", sabotage=True)
-            plan.add(H(hname + "_must_fail", "must_fail", {"sabotage": "oracle off by one"}))
+            plan.add(H(hname + "_must_fail", "must_fail", {"sabotage": "negated oracle"}))
             first = False
         src.append(decl_module(d, hs))
     for i, (a, b) in enumerate(const_twins(tier)):
